@@ -15,7 +15,7 @@ import ast
 
 import astq
 from effects import effects, base_name
-from model import walk_own, norm, AnalysisError, FuncInfo
+from model import walk_own, AnalysisError, FuncInfo, full as norm
 from rules import common
 
 EXPLANATION = (
